@@ -119,6 +119,26 @@ fn run_prover_edit(cfg: &Cfg, wit: &Wit, first: Option<&Wit>, ctx: &Ctx, pc: &Pe
     }
 }
 
+/// The observed run comes right after a REFUSED proving attempt on the same thread (another witness for the same
+/// configuration, with a promise above its value): what a refused call leaves behind must not reach the next proof
+fn run_prover_after_refusal(cfg: &Cfg, wit: &Wit, ctx: &Ctx, pc: &PedersenGens<F>, fault: &str) -> Result<RunOut, String> {
+    let mut stale = wit.clone();
+    for j in 0..cfg.m {
+        stale.values[j] = 0;
+        for k in 0..cfg.d {
+            stale.blindings[j][k] = blinding(900 + j, k);
+        }
+    }
+    stale.promises[0] = Some(1);
+    if let Ok(b0) = build_with_pc::<F>(cfg, &stale, pc.clone()) {
+        let r = catch(|| lib_prove(&b0, ctx, &mut fault_rng(fault)));
+        if matches!(r, Ok(Ok(_))) {
+            return Err("HARNESS: the attempt that should be refused (promise above value) produced a proof".into());
+        }
+    }
+    run_prover(cfg, wit, ctx, pc, fault)
+}
+
 /// degenerate commitment generators: `merge` = (a, b) makes G_b = G_a; `h_is_g0` makes H = G_0
 fn degenerate_pc(d: usize, merge: Option<(usize, usize)>, h_is_g0: bool) -> PedersenGens<F> {
     let mut g: Vec<F> = (0..d).map(|k| fg::basis(&format!("G{}", k))).collect();
@@ -276,6 +296,22 @@ fn hedge_case(cfg: Cfg, seeded: bool, fault: &'static str) -> Box<dyn Case> {
             if ra.bytes != ra2.bytes {
                 res.violate(format!("{}/reproducible", pair.name), "two identical runs under the same RNG fault gave different proofs");
             }
+            // ... also right after a refused attempt on the same thread
+            match run_prover_after_refusal(&pair.a.0, &pair.a.1, &pair.a.2, &pair.a.3, fault) {
+                Ok(rc) => {
+                    res.executions += 1;
+                    res.validated += 1;
+                    *res.outcome_counter("runs-after-a-refused-attempt") += 1;
+                    if let Some(f) = rc.structure.first() {
+                        res.violate(format!("{}/rng-structure/after-refused-attempt", pair.name), format!("{} ({} findings)", f, rc.structure.len()));
+                    }
+                    if rc.bytes != ra.bytes {
+                        res.violate(format!("{}/reproducible/after-refused-attempt", pair.name), "the same run right after a refused proving attempt on this thread gave a different proof");
+                    }
+                },
+                Err(e) if e.starts_with("HARNESS") => res.machinery_error(e),
+                Err(_) => *res.outcome_counter("prover-failed(skipped)") += 1,
+            }
             // the two final masking scalars always come from the transcript RNG (with or without a seed): a run in which
             // the transcript RNG handed out nothing means they came from somewhere else
             if ra.rng_scalars.len() < 2 || rb.rng_scalars.len() < 2 {
@@ -363,7 +399,7 @@ pub fn run(rep: &mut Report) {
                 seed {absent, present} x run pairs differing in exactly one of: witness value with the same commitment (H = G_0), witness \
                 blinding components (a,b) with the same commitment (G_b = G_a, every pair), transcript context, one commitment, one \
                 promise, bit length, one blinding generator; oracle: the RNG-derived nonces of the two runs (transcript-RNG outputs) share \
-                no element (all pairs), identical runs are bit-identical, nonces within a run stay distinct, and on the merlin trace every \
+                no element (all pairs), identical runs are bit-identical (also right after a refused proving attempt on the same thread), nonces within a run stay distinct, and on the merlin trace every \
                 RNG a nonce is drawn from was built after the latest absorbed message, keyed with the complete witness serialisation \
                 and finalised with external randomness; on ordinary generators (5 configurations x 4 fault models) every RNG-derived nonce read back from the proof \
                 is an output of that transcript RNG"
